@@ -53,8 +53,13 @@ def _mk_circuit(kind: int) -> Any:
     from bqskit.ir.circuit import Circuit
     from bqskit.ir.gates import CNOTGate, U3Gate, VariableUnitaryGate, HGate, RZGate
     c = Circuit(2)
-    if kind == 0:          # parameterised, minimisation only
-        c.append_gate(U3Gate(), 0, [0.1, 0.2, 0.3])
+    if kind == 0:          # parameterised, minimisation only; 3 qubits: one cycle holds a parameterised gate on a
+        #                    DESCENDING location together with a parameterised gate between its qudits, so that the
+        #                    flat parameter order (iteration order) differs from the grid order of that cycle
+        from bqskit.ir.gates import RZZGate
+        c = Circuit(3)
+        c.append_gate(RZZGate(), (2, 0), [0.05])
+        c.append_gate(U3Gate(), 1, [0.1, 0.2, 0.3])
         c.append_gate(CNOTGate(), (0, 1))
         c.append_gate(RZGate(), 1, [0.4])
     elif kind == 1:        # QFactor only
@@ -91,10 +96,11 @@ class _Script:
 
     def candidate(self, k: int, n: int) -> Any:
         import numpy as np
-        return np.array([float(k + 1)] * n)
+        # distinct entries (exact binary fractions): a candidate stored in the wrong parameter ORDER is not a candidate
+        return np.array([float(k + 1) + i / 16.0 for i in range(n)])
 
     def cost_of(self, x: Any) -> Any:
-        return self.costs[int(round(float(x[0]))) - 1]
+        return self.costs[int(float(x[0])) - 1]
 
 
 def _argmin_body(entry: int, ns: int, c0: int, c1: int, c2: int, c3: int, c4: int, c5: int) -> bool:
@@ -118,7 +124,7 @@ def _argmin_body(entry: int, ns: int, c0: int, c1: int, c2: int, c3: int, c4: in
     before = _structure(circ)
     params_before = [float(x) for x in circ.params]
     npar = circ.num_params
-    target = UnitaryMatrix.identity(4)
+    target = UnitaryMatrix.identity(2 ** circ.num_qudits)
 
     class RankCost(CostFunction):
         def get_cost(self, params: Any) -> Any:
@@ -232,8 +238,13 @@ def _argmin_body(entry: int, ns: int, c0: int, c1: int, c2: int, c3: int, c4: in
             return rt.fail('argmin:%s:start-vector-length' % e)
     # the kept candidate is one of the candidates and none is cheaper
     p = [float(x) for x in res.params]
-    if len(p) != npar or any(x != p[0] for x in p) or not (1 <= int(p[0]) <= n) or float(int(p[0])) != p[0]:
+    if len(p) != npar or not (1 <= int(p[0]) <= n) or p != [float(x) for x in sc.candidate(int(p[0]) - 1, npar)]:
         return rt.fail('argmin:%s:parameters-are-not-a-candidate' % e)
+    flat: list = []
+    for op in res:
+        flat.extend(float(x) for x in op.params)
+    if flat != p:
+        return rt.fail('argmin:%s:stored-parameters-disagree-with-params' % e)
     kept = costs[int(p[0]) - 1]
     for c in costs:
         if c < kept:
@@ -285,15 +296,15 @@ def _select_body(kind: int, meth: int, ns: int) -> bool:
         try:
             try:
                 if m == 'none':
-                    res = circ.instantiate(UnitaryMatrix.identity(4), multistarts=n)
+                    res = circ.instantiate(UnitaryMatrix.identity(2 ** circ.num_qudits), multistarts=n)
                 elif m.startswith('name:'):
-                    res = circ.instantiate(UnitaryMatrix.identity(4), method=m[5:], multistarts=n)
+                    res = circ.instantiate(UnitaryMatrix.identity(2 ** circ.num_qudits), method=m[5:], multistarts=n)
                 elif m == 'inst:minimization':
-                    res = circ.instantiate(UnitaryMatrix.identity(4), method=Minimization(), multistarts=n)
+                    res = circ.instantiate(UnitaryMatrix.identity(2 ** circ.num_qudits), method=Minimization(), multistarts=n)
                 elif m == 'inst:qfactor':
-                    res = circ.instantiate(UnitaryMatrix.identity(4), method=QFactor(), multistarts=n)
+                    res = circ.instantiate(UnitaryMatrix.identity(2 ** circ.num_qudits), method=QFactor(), multistarts=n)
                 else:
-                    res = circ.instantiate(UnitaryMatrix.identity(4), method=3.5, multistarts=n)   # type: ignore
+                    res = circ.instantiate(UnitaryMatrix.identity(2 ** circ.num_qudits), method=3.5, multistarts=n)   # type: ignore
             except Exception as ex:
                 err = ex
         finally:
